@@ -319,8 +319,21 @@ def run_recon(case):
         return violated(sig, "reconstruction raised %s: %s" % (type(inn).__name__,
                                                                str(inn)[:200]), wit,
                         mech="recon-raised")
-    if not (np.array_equal(ksp, ksp_keep) and np.array_equal(mps, mps_keep)):
+    changed = not (np.array_equal(ksp, ksp_keep) and np.array_equal(mps, mps_keep))
+    if changed:
         obs["caller_arrays_changed"] = 1
+    # the same reconstruction once more on the very same arrays (as a user comparing solvers or
+    # regularisation values would do): must again be the minimiser, i.e. the same image
+    if app.startswith("sense") and solver in (None, "ConjugateGradient"):
+        xr2 = mr.app.SenseRecon(ksp, mps, lamda=lam, weights=w, coord=coord, solver=solver,
+                                max_iter=iters, **kw).run()
+        e2 = nrm(xr2.ravel() - xref) / max(nrm(xref), 1e-300)
+        obs["second_run_err"] = e2
+        if not e2 <= 1e-6:
+            return violated(sig, "a second SenseRecon on the same k-space / maps arrays is off "
+                            "by %.3g from the normal-equation solution (first run: %.3g; caller "
+                            "arrays modified by the first run: %s)" % (e2, e, changed), wit,
+                            mech="sense-recon-second-run", obs=obs)
     return held(sig, obs, 1)
 
 
